@@ -306,6 +306,23 @@ func init() {
 		if rest == nil {
 			return out
 		}
+		// the local address may be in use by another socket (only with a fixed local port)
+		if lp, ok := local.(PtrV); ok && !lp.IsNil() {
+			port := e.load(rest, lp).(StructV).F[1].(*Term)
+			inuse, rest2 := e.forkOn(rest, c.And(e.netFault(rest, "dial.inuse"), c.Not(c.Eq(port, e.bv64(0)))), "bind address in use")
+			if inuse != nil {
+				if sp := e.prog.ImportedPackage("syscall"); sp != nil {
+					errno := sp.Pkg.Scope().Lookup("Errno").Type()
+					out = append(out, exit{st: inuse, kind: exitReturn, val: TupleV{IfaceV{}, IfaceV{T: errno, V: c.BV(0x62, 64)}}})
+				} else {
+					out = append(out, exit{st: inuse, kind: exitReturn, val: TupleV{IfaceV{}, e.netErr("address already in use")}})
+				}
+			}
+			rest = rest2
+			if rest == nil {
+				return out
+			}
+		}
 		kind := 1
 		ct := e.netType("UDPConn")
 		if network == "tcp" || network == "tcp4" {
@@ -437,6 +454,8 @@ func (e *Engine) netIntrinsic(st *State, name string, args []Value) ([]exit, boo
 		return retExit(st, e.clockOn(st)), true
 	case "verifNetFaults":
 		st.netw().faults = args[0].(*Term).IsTrue()
+		return retExit(st, nil), true
+	case "verifBindPortBusy":
 		return retExit(st, nil), true
 	case "verifNetPlayTo":
 		return retExit(st, nil), true
